@@ -1092,7 +1092,11 @@ func compareSemanticallyEquivalentTypes(newType, oldType *SimpleType, context *E
 		// Resolve both definitions to their base definitions then compare their TypeArguments
 		newTypeArgs := getBaseDefinition(newDef).GetDefinitionMeta().TypeArguments
 		oldTypeArgs := getBaseDefinition(oldDef).GetDefinitionMeta().TypeArguments
-		if len(newTypeArgs) == len(oldTypeArgs) {
+		if len(newTypeArgs) == 0 && len(oldTypeArgs) == 0 {
+			// The base definitions are not generic although the types have TypeArguments, e.g. `Alias<T>: T` resolves
+			// to its TypeArgument. There are no TypeArguments left to compare, so compare what the types resolve to
+			return compareTypes(GetUnderlyingType(newType), GetUnderlyingType(oldType), context)
+		} else if len(newTypeArgs) == len(oldTypeArgs) {
 			// We can just compare TypeArguments
 			for i := range newTypeArgs {
 				newTypeArg := newTypeArgs[i]
